@@ -1,5 +1,5 @@
 #!/bin/bash
-# usage: seed_regression.sh [K N]  -> for every seeded change (or those whose index i has i % N == K): apply it to a scratch copy of
+# usage: [SEEDS='^(C01|C03)-'] seed_regression.sh [K N]   (SEEDS: extended regular expression on the seed name)  -> for every seeded change (or those whose index i has i % N == K): apply it to a scratch copy of
 # /repo's compmech under /tmp, run the quick check of its property on that copy, print the last line (exit code). Not a registered command.
 K=${1:-0}; N=${2:-1}
 cd /verif
@@ -7,7 +7,7 @@ scr=/tmp/scr_reg_$K
 i=-1
 for d in seeded/*/; do
   i=$((i+1)); [ $((i % N)) -eq $K ] || continue
-  name=$(basename $d); prop=$(python3 -c "import json;print(json.load(open('$d/meta.json'))['property'])")
+  name=$(basename $d); if [ -n "$SEEDS" ]; then echo "$name" | grep -Eq "$SEEDS" || continue; fi; prop=$(python3 -c "import json;print(json.load(open('$d/meta.json'))['property'])")
   rm -rf $scr; mkdir -p $scr; rsync -a --exclude '*.so' --exclude '*.pyc' --exclude 'lib/src/*.o' /repo/compmech $scr/
   if ! (cd $scr && patch -p1 --dry-run < /verif/$d/patch.diff >/dev/null 2>&1); then echo "$name: PATCH-DOES-NOT-APPLY"; continue; fi
   (cd $scr && patch -p1 < /verif/$d/patch.diff >/dev/null 2>&1)
